@@ -192,8 +192,8 @@ def main(tier, replay=None):
             print(f"VIOLATION property={PID} replay={replay}")
             return 1
         return 0
-    n_params = 800 if tier == "thorough" else 200
-    n_traj = 400 if tier == "thorough" else 60
+    n_params = 3000 if tier == "thorough" else 200
+    n_traj = 1200 if tier == "thorough" else 60
     hashseeds = [0] + [1 + common.mix_seed(seed, "hs", i) % 4000000000 for i in range(7 if tier == "thorough" else 2)]
 
     # ---- generate the cases with Hypothesis (generation phase only)
